@@ -65,7 +65,7 @@ def bigm_walks(prog: Program, rep, RID: str):
             key = "AbstractWalkModelDiGraph._encode_walks:22a:big-M"
             loc = f"{f.module.relpath}:{e['_line']}"
             atoms = M.atoms()
-            ok = len(atoms) == 1 and list(atoms)[0].startswith("sum((self.edge_upper_bounds[") and "self.G.predecessors(" in list(atoms)[0] \
+            ok = len(atoms) == 1 and (list(atoms)[0].startswith("sum((self.edge_upper_bounds[") or list(atoms)[0].startswith("sum((float(self.edge_upper_bounds[")) and "self.G.predecessors(" in list(atoms)[0] \
                 and M.coeff((list(atoms)[0],)) >= 1 and nf.terms[xs[0]].const_value() == -1
             ub_decl = str(decl.get("self.edge_vars", {}).get("ub", ""))
             ok = ok and "self.edge_upper_bounds[" in ub_decl
@@ -101,3 +101,5 @@ def check(prog: Program, rep):
     from rules.c11 import naming_rule
     augmentation_guards(prog, rep, "C01.R6")
     naming_rule(prog, rep, "C01.R6")
+    from rules.providers import given_weights_nonnegative
+    given_weights_nonnegative(prog, rep, "C01.R7", ["kFlowDecomp", "kLeastAbsErrors", "kMinPathError"])
